@@ -745,7 +745,10 @@ impl Driver {
         let Some(client) = txn.get_client()? else { return Ok(false) };
         let Some(snap) = client.snapshot else { return Ok(false) };
         let Some(data) = txn.get_snapshot_data(snap.version_id)? else { return Ok(false) };
-        let ts = chrono::Utc::now() - chrono::Duration::seconds(days * 86400 + 3600);
+        // anywhere inside the d-th day: one hour, thirteen hours or almost a whole day past the
+        // boundary, so that num_days() is d whichever way an implementation rounds
+        let within = [3600, 13 * 3600, 23 * 3600 + 1800][(days.rem_euclid(3)) as usize];
+        let ts = chrono::Utc::now() - chrono::Duration::seconds(days * 86400 + within);
         txn.set_snapshot(
             Snapshot { version_id: snap.version_id, timestamp: ts, versions_since: snap.versions_since },
             data,
